@@ -3,7 +3,7 @@
     comments of the dispatch tables in coq/Driver*.v, so these files are the single registry.
     Per-property tables live in DriverCxx.v ([dispatch_cxx : Z -> val -> option val], None for
     an id they do not own) and are chained in [dispatch] below. *)
-From SE Require Import Base Codecs Fat Stream Transcode Cue Names DriverBase.
+From SE Require Import Base Codecs Fat Stream Transcode Cue Names AkaiImage DriverBase.
 
 Definition dispatch_core (id : Z) (a : val) : option val :=
   Some (
@@ -68,6 +68,11 @@ Definition dispatch_core (id : Z) (a : val) : option val :=
       | Some p => VL [VI 1; vlistZ (map Z.of_nat p)]
       | None => VL [VI 0]
       end
+  | 620 (* akai_export *) => vres (fun l => VL (map vwav l)) (akai_export (unimg a))
+  | 621 (* akai_listing *) =>
+      vres (fun l => VL (map (fun p => VL [vlistZ (fst p);
+                 VL (map (fun v => VL [vlistZ (fst v); VL (map vlistZ (snd v))]) (snd p))]) l))
+           (akai_listing (unimg a))
   | _ => vbad
   end).
 
